@@ -303,15 +303,19 @@ pub fn c04_responder_half_is_hash_order() {
     st.salted_node_id_hash = own;
     let mut out = MsgBuffer::new(100);
     out.set_length(40);
+    // is the peer's salted hash one made from OUR node id (with any salt)? (same digest query as the code will make)
+    let own_id_hash = st.check_salted_node_id_hash(&peer, st.node_id);
     let res = st.handle_init(&mut out);
-    let mut same = true;
+    let mut same = own_id_hash;
     let mut i = 0;
+    let mut eq = true;
     while i < 20 {
         if own[i] != peer[i] {
-            same = false;
+            eq = false;
         }
         i += 1;
     }
+    same = same || eq;
     match res {
         Err(e) => {
             std::mem::forget(e);
@@ -374,3 +378,127 @@ pub fn c14_ping_from_own_node_id_is_refused() {
     std::mem::forget(st);
     witness!();
 }
+
+// ===================================================================================================== C05 kernels
+/// Simultaneous open: an end that has sent its ping and is awaiting the pong receives the other end's (verified) ping.
+/// Decided: it switches to the responder role - forgets its own ping and ECDH key, creates the core in the half
+/// `own_hash > peer_hash`, answers with a pong, awaits the peng - if and only if the peer's salted hash is GREATER than
+/// its own; otherwise it ignores the ping (no reply, no state change) and keeps waiting for the pong. Both ends evaluate
+/// the same two values, and `>` is antisymmetric (c04_half_decision_antisymmetric): exactly one end switches.
+#[cfg_attr(kani, kani::proof, kani::unwind(34), kani::stub(crate::crypto::init::InitMsg::read_from, read_from_verified),
+           kani::stub(crate::crypto::init::InitState::send_message, send_message_recorder))]
+pub fn c05_simultaneous_open_exactly_the_smaller_hash_yields() {
+    let own: [u8; 20] = kani::any();
+    let peer: [u8; 20] = kani::any();
+    let retries: usize = kani::any();
+    kani::assume(retries < MAX_FAILED_RETRIES);
+    unsafe {
+        RF_KIND = 1;
+        RF_HASH = peer;
+        RF_SHAPE = 2;
+        SENT_STAGE = 0;
+    }
+    let mut st = mk_state(mk_algos(2, false, &[1.0, 2.0, 3.0], false));
+    st.salted_node_id_hash = own;
+    // as after send_ping()
+    let (k, _) = st.create_ecdh_keypair();
+    st.ecdh_private_key = Some(k);
+    st.last_message = Some(vec![STAGE_PING]);
+    st.next_stage = STAGE_PONG;
+    st.failed_retries = retries;
+    let mut out = MsgBuffer::new(100);
+    out.set_length(40);
+    // refused as self-connection iff the hashes are identical or the peer's hash derives from our node id
+    let mut same = st.check_salted_node_id_hash(&peer, st.node_id);
+    let res = st.handle_init(&mut out);
+    let mut eq = true;
+    let mut i = 0;
+    while i < 20 {
+        if own[i] != peer[i] {
+            eq = false;
+        }
+        i += 1;
+    }
+    same = same || eq;
+    match res {
+        Err(e) => {
+            std::mem::forget(e);
+            assert!(same);
+        }
+        Ok(r) => {
+            assert!(matches!(r, InitResult::Continue));
+            assert!(!same);
+            if peer > own {
+                // yields: now a responder
+                assert!(st.next_stage == STAGE_PENG && unsafe { SENT_STAGE } == STAGE_PONG && !out.is_empty());
+                assert!(st.ecdh_private_key.is_none());
+                let core = st.crypto.as_ref().unwrap();
+                assert!(!crate::crypto::core::verif::half_of(core));
+                assert!(st.failed_retries == 0);
+            } else {
+                // insists: ignores the ping
+                assert!(st.next_stage == STAGE_PONG && unsafe { SENT_STAGE } == 0 && out.is_empty());
+                assert!(st.crypto.is_none() && st.ecdh_private_key.is_some() && st.last_message.is_some());
+                assert!(st.failed_retries == retries);
+            }
+        }
+    }
+    std::mem::forget(st);
+    witness!();
+}
+
+/// One second of a handshake object: retransmission while fewer than 120 retries have failed (the last datagram,
+/// byte-identical), then give up (fatal error, stage CLOSING); the initiator lingers close_time seconds after success
+/// and then closes; a closing object does nothing.
+fn every_second_step(stage: u8, has_last: bool) {
+    let retries: usize = kani::any();
+    let close_time: usize = kani::any();
+    let last: [u8; 6] = kani::any();
+    kani::assume(retries <= MAX_FAILED_RETRIES);
+    let mut st = mk_state(mk_algos(2, false, &[1.0, 2.0, 3.0], false));
+    st.next_stage = stage;
+    st.failed_retries = retries;
+    st.close_time = close_time;
+    st.last_message = if has_last { Some(vec![last[0], last[1], last[2], last[3], last[4], last[5]]) } else { None };
+    let mut out = MsgBuffer::new(100);
+    let res = crate::vh_common::okf(st.every_second(&mut out));
+    if stage == WAITING_TO_CLOSE {
+        assert!(res.is_some() && out.is_empty());
+        if close_time == 0 {
+            assert!(st.next_stage == CLOSING);
+        } else {
+            assert!(st.next_stage == WAITING_TO_CLOSE && st.close_time == close_time - 1);
+        }
+        assert!(st.failed_retries == retries);
+    } else if stage == CLOSING {
+        assert!(res.is_some() && out.is_empty() && st.next_stage == CLOSING && st.failed_retries == retries);
+    } else if retries < MAX_FAILED_RETRIES {
+        assert!(res.is_some() && st.next_stage == stage && st.failed_retries == retries + 1);
+        if has_last {
+            assert!(out.len() == 6);
+            let m = out.message();
+            let mut i = 0;
+            while i < 6 {
+                assert!(m[i] == last[i]);
+                i += 1;
+            }
+        } else {
+            assert!(out.is_empty());
+        }
+    } else {
+        assert!(res.is_none() && st.next_stage == CLOSING && out.is_empty());
+    }
+    std::mem::forget(st);
+    witness!();
+}
+macro_rules! es_inst {
+    ($($name:ident = ($st:expr, $hl:expr)),*) => {$(
+        #[cfg_attr(kani, kani::proof, kani::unwind(34))]
+        pub fn $name() {
+            every_second_step($st, $hl)
+        }
+    )*};
+}
+es_inst!(c05_every_second_ping_nolast = (STAGE_PING, false), c05_every_second_pong_last = (STAGE_PONG, true),
+         c05_every_second_peng_last = (STAGE_PENG, true), c05_every_second_waiting = (WAITING_TO_CLOSE, true),
+         c05_every_second_closing = (CLOSING, false));
